@@ -78,8 +78,8 @@ def run_cases(prop, tier, seed, cases, devices, matcher=None, keyf=None, rule=""
             if len(obs.get("code", "")) > 600:
                 obs["code"] = obs["code"][:600] + "..."
             v.reject({"tag": c.tag, "source": c.src, "prog": clean(c.prog), "observed": obs, "expected": rejected[i]}, matcher)
-        if extra:
-            cov2, stats2 = extra(v, scratch)
+        for ex in ([extra] if callable(extra) else (extra or [])):
+            cov2, stats2 = ex(v, scratch, all_cases)
             extra_cov = dict(extra_cov or {}, **cov2)
             stats["states"] += stats2["states"]
             stats["transitions"] += stats2["transitions"]
@@ -156,6 +156,35 @@ def kf_match(k, case):
         return (case["observed"]["r"] == "ok" and not case["expected"].get("ok")
                 and any(l["k"] == "org" and l["e"] == {"t": "num", "v": 0} for l in case["prog"]))
     return False
+
+
+def pipeline_extra(sample=1500, fixtures=False, suite=False, seed=0):
+    """Hook-level validation (Trace_Pipeline) of a sample of the check's own programs, and optionally of the
+    repository's fixtures, shipped part files and own test suite."""
+    import pipeline as pl
+
+    def run(v, scratch, cases):
+        rnd = random.Random(seed)
+        pick = cases if len(cases) <= sample else rnd.sample(cases, sample)
+        jobs = [{"k": "trace", "id": i, "src": c.src} for i, c in enumerate(pick)]
+        viol, cov = pl.validate_builds(jobs, scratch, "generated")
+        total = {"pipeline_generated": cov}
+        st = {"states": cov.get("states", 0), "transitions": cov.get("transitions", 0)}
+        if fixtures:
+            v2, c2 = pl.validate_builds(pl.fixture_jobs(scratch), scratch, "fixtures")
+            viol += v2
+            total["pipeline_fixtures_and_part_files"] = c2
+            st["states"] += c2.get("states", 0); st["transitions"] += c2.get("transitions", 0)
+        if suite:
+            streams, info = pl.suite_streams(scratch)
+            v3, c3 = pl.validate_streams(streams, [{"src": "repository test suite, stream %d" % i} for i in range(len(streams))], scratch, "suite")
+            viol += v3
+            total["pipeline_repository_test_suite"] = dict(c3, **info)
+            st["states"] += c3.get("states", 0); st["transitions"] += c3.get("transitions", 0)
+        for x in viol:
+            v.reject(x, kf_match)
+        return total, st
+    return run
 
 
 def default_key(x):
@@ -339,6 +368,7 @@ def check_c02(prop, tier, seed, devices):
                 observe_labels(prog, ["here"])
                 cases.append(Case(prog, tag=tag))
     return run_cases(prop, tier, seed, cases, devices, keyf=default_key,
+                     extra=[pipeline_extra(sample=2500 if tier == "quick" else 20000, fixtures=True, suite=True, seed=seed)],
                      rule="all sequences up to length 3 (quick) / 4 (thorough) over a 15-symbol layout alphabet x 3 device classes, "
                           "plus seeded random programs of 5-60 items over 5 devices; each with a .dw table of its labels; "
                           "distinct = distinct rendered source",
@@ -452,7 +482,7 @@ def check_c03(prop, tier, seed, devices):
             tgt = binop("+", sym("pc"), lit(1 + d)) if d >= -1 else binop("-", sym("pc"), lit(-d - 1))
             ops_ = ([E(sbit)] if sbit is not None else []) + [E(tgt)]
             cases.append(Case([instr("nop"), instr("nop"), instr(mn, *ops_), instr("ret")], tag="far"))
-    return run_cases(prop, tier, seed, cases, devices, keyf=default_key,
+    return run_cases(prop, tier, seed, cases, devices, keyf=default_key, extra=[pipeline_extra(sample=1200, seed=seed)],
                      rule="<prefix, branch/jump, filler, target> forward and backward for 34 branch forms + rjmp/rcall; every boundary "
                           "distance for every form, every distance -70..70 with forms rotated; fillers: nop, jmp, odd .db, .dw, 3-byte .db, "
                           ".org gap, mixed; target named by label and by pc expression; plus far targets (around +-2^7, 2^8, 2^12, 2^13, 2^15, 2^16, 2^22, 2^31, "
@@ -524,7 +554,7 @@ def check_c06(prop, tier, seed, devices):
                                   tag="byte.eeprom-resumed"))
                 cases.append(Case([seg("eeprom"), data(w, E(1)), org(k + 8), data(w, E(2)), byte(n), org(k + 20), byte(n), data(1, S("z"))],
                                   tag="byte.eeprom-org"))
-    return run_cases(prop, tier, seed, cases, devices, keyf=default_key,
+    return run_cases(prop, tier, seed, cases, devices, keyf=default_key, extra=[pipeline_extra(sample=1200, seed=seed)],
                      rule=".db/.dw/.dd/.dq with element lists of length 0..5 over boundary values of each width (both ends, signed and unsigned), "
                           ".equ symbols, labels and ten strings (empty, non-ASCII, containing ; , //), in code, eeprom and data segments, "
                           "followed by a second item; .byte n in each segment, in EEPROM blocks after .org and in resumed EEPROM blocks")
@@ -844,6 +874,18 @@ def fault_lines():
         ("undef-data", [data(2, E(sym("nosuch")))]),
         ("undef-set", [setv("zz", binop("+", sym("nosuch"), lit(1)))]),
         ("undef-if", [line("if", e=sym("nosuch")), line("endif")]),
+        ("undef-instr", [instr("ldi", R(16), E(binop("&&", lit(0), sym("nosuch"))))]),
+        ("undef-instr", [instr("ldi", R(16), E(binop("||", lit(1), sym("nosuch"))))]),
+        ("undef-data", [data(1, E(1), E(binop("&&", lit(0), sym("nosuch"))))]),
+        ("undef-set", [setv("zz", binop("&&", lit(0), sym("nosuch")))]),
+        ("undef-if", [line("if", e=binop("&&", lit(0), sym("nosuch"))), line("endif")]),
+        ("undef-if", [line("if", e=binop("||", lit(1), sym("nosuch"))), instr("nop"), line("endif")]),
+        ("undef-if", [line("if", e=lit(0)), line("elif", e=sym("nosuch")), line("endif")]),
+        ("div-zero", [data(2, E(binop("/", lit(4), lit(0))))]),
+        ("div-zero", [instr("ldi", R(16), E(binop("%", lit(4), binop("-", lit(2), lit(2)))))]),
+        ("misfit-data", [data(1, E(1), E(256), E(2))]),
+        ("misfit-data", [data(2, E(70000))]),
+        ("string-in-dw", [data(2, E(1), S("ab"))]),
         ("dup-label", [label("main")]),
         ("error-directive", [line("error", txt="stop here")]),
     ]
@@ -863,10 +905,15 @@ def check_c15(prop, tier, seed, devices):
     slots = 6
     skeleton = lambda: [instr("nop"), line("if", e=lit(1)), instr("ldi", R(16), E(1)), line("else"), instr("ldi", R(16), E(2)), line("endif"),
                         line("ifdef", n="NOPE"), instr("ret"), line("endif"), instr("sei")]
+    chain = lambda: [instr("nop"), line("if", e=lit(0)), instr("ldi", R(16), E(1)), line("elif", e=lit(1)), instr("ldi", R(16), E(2)),
+                     line("elif", e=lit(1)), instr("ldi", R(16), E(3)), line("else"), instr("ldi", R(16), E(4)), line("endif"),
+                     line("if", e=lit(1)), line("if", e=lit(0)), instr("ret"), line("elif", e=lit(1)), instr("sei"), line("elif", e=lit(1)), instr("cli"),
+                     line("endif"), line("elif", e=lit(1)), instr("nop"), line("endif"), instr("sleep")]
     n = 0
     for combo in itertools.product([None, "message", "warning", "error"], repeat=4):
-        for places in ([0, 2, 4, 9], [1, 3, 7, 10], [2, 2, 5, 8]):
-            prog = skeleton()
+        for skel, places in ((skeleton, [0, 2, 4, 9]), (skeleton, [1, 3, 7, 10]), (skeleton, [2, 2, 5, 8]),
+                             (chain, [2, 4, 6, 8]), (chain, [5, 7, 9, 22]), (chain, [12, 14, 16, 19])):
+            prog = skel()
             texts = []
             ins = sorted(((p, k) for p, k in zip(places, combo) if k), key=lambda x: -x[0])
             for j, (p, k) in enumerate(ins):
@@ -878,10 +925,11 @@ def check_c15(prop, tier, seed, devices):
                 q = [line("blank") for _ in range(shift)] + copy.deepcopy(prog)
                 cases.append(Case(q, tag="messages", chkline=True, msg_texts=texts))
     return run_cases(prop, tier, seed, cases, devices, keyf=default_key,
-                     rule="5 valid base programs x every insertion position x 16 single-line faults (syntax, unknown mnemonic, wrong kind, "
-                          "out of range, undefined symbol in instruction/data/.set/.if, duplicate label, .error), each built as is and "
+                     rule="5 valid base programs x every insertion position x 28 single-line faults (syntax, unknown mnemonic, wrong kind, "
+                          "out of range, undefined symbol in instruction/data/.set/.if/.elif also beside a deciding && / ||, zero divisor, misfit, string in .dw, "
+                          "duplicate label, .error), each built as is and "
                           "shifted down by 7 lines; the error text must contain the specification's fault line as an integer token both times; "
-                          "plus 768 placements of .message/.warning/.error in and around taken and untaken branches",
+                          "plus 1536 placements of .message/.warning/.error in and around taken and untaken branches, including .elif chains and nested chains",
                      assumptions=["messages from macro bodies and line numbers inside included files are not checked (property silent)"])
 
 
@@ -947,7 +995,7 @@ def check_c12(prop, tier, seed, devices):
     cases.append(Case([instr("nop"), line("device", n="ATmega8"), instr("nop")], tag="device-after-code"))
     for name in sorted(devices):
         cases.append(Case([line("device", n=name), instr("nop"), seg("data"), byte(0)], tag="sizes"))
-    return run_cases(prop, tier, seed, cases, devices, keyf=default_key, exhaustive=True, extra=partfile_check(devices),
+    return run_cases(prop, tier, seed, cases, devices, keyf=default_key, exhaustive=True, extra=[partfile_check(devices), pipeline_extra(sample=800, seed=seed)],
                      rule="every device of the table (and none) x {flash, EEPROM, RAM} x {capacity-1, capacity, capacity+1} reached by "
                           "instructions, data, reservations and .org; unknown device; second device; reported sizes for every device; "
                           "every shipped part-definition file with a table row x the memory figures it declares")
@@ -995,7 +1043,7 @@ def scan_part_files():
 
 
 def partfile_check(devices):
-    def run(v, scratch):
+    def run(v, scratch, cases=None):
         parts = scan_part_files()
         events, names = [], []
         for name, (fname, fig, has) in sorted(parts.items()):
